@@ -20,6 +20,7 @@ import Operon.Gen.MetabolismConsts
                                                          never part of an operation's outcome: nothing changes in the model)
     label <hex code points>                          -> ok     (the `operation` text of the following consume calls: not modelled)
     fcheck cur cap debt                              -> the float classifier's verdict (self-check of the Float tie)
+    set id atp|gtp|nadh|max_atp|max_gtp|max_nadh|max_debt v -> ok | <store>       (the caller assigns a public attribute)
     race k <call A> / <call B>                       -> <ret A> <ret B> | <every store>   (calls: consume/regen/transfer/convert/
                                                          dorm/wake/interest/rst lines; B runs to completion just before A's
                                                          k-th lock acquisition; see `raceLine`)
@@ -286,6 +287,16 @@ def stepLine (d : DSt) (toks : List String) : DSt × String :=
       !x.isEmpty && x.all (fun c => ('0' ≤ c && c ≤ '9') || ('a' ≤ c && c ≤ 'f')) &&
         x.foldl (fun acc c => acc * 16 + hexVal c) 0 < 0x110000
     if h = "-" || (h.splitOn ".").all okTok then (d, "ok") else (d, "bad-op")
+  | ["set", i, attr, v] =>
+    let fld : Option Field := match attr with
+      | "atp" => some .atp | "gtp" => some .gtp | "nadh" => some .nadh | "max_atp" => some .maxAtp
+      | "max_gtp" => some .maxGtp | "max_nadh" => some .maxNadh | "max_debt" => some .maxDebt | _ => Option.none
+    match nat? i, fld, nat? v with
+    | some i, some f, some v =>
+      match sys[i]? with
+      | some s => ({ d with sys := sys.set i (s.assign f v) }, joinSp ["ok", "|", showStore (s.assign f v)] ++ " ## set")
+      | Option.none => (d, "no-such-store")
+    | _, _, _ => (d, "bad-op")
   | "race" :: k :: rest =>
     let parts := (String.intercalate " " rest).splitOn " / "
     match nat? k, parts with
